@@ -25,6 +25,8 @@ from claripy.errors import ClaripySolverInterruptError
 class SymSolver:
     def __init__(self):
         self.cons = []      # (z3 formula, claripy AST, tracked name or None)
+        self.last = None    # (outcome, number of assertions) of the last check made ON THIS OBJECT: like a z3.Solver, a core is only
+        #                     available after this object itself has answered unsat (a clone or a refilled solver has made no check)
 
     def copy(self):
         c = SymSolver()
@@ -195,7 +197,9 @@ class SymBackend(Backend):
         self._tick()
         G = self._G(solver, extra_constraints)
         if not E.ENG.branch(self.exists(G)):
+            solver.last = ("unsat", len(solver.cons))
             return False
+        solver.last = ("sat", len(solver.cons))
         if model_callback is not None:
             model_callback(self._model(G))
         return True
@@ -214,7 +218,10 @@ class SymBackend(Backend):
             self._tick()
             H = z3.And(G, *block) if block else G
             if not E.ENG.branch(self.exists(H)):
+                if not block:
+                    solver.last = ("unsat", len(solver.cons))
                 break
+            solver.last = ("sat", len(solver.cons))
             m = self._model(H, minimal=self.canonical_enum and len(results) >= 1)
             if model_callback is not None:
                 model_callback(m)
@@ -309,6 +316,8 @@ class SymBackend(Backend):
         """any unsatisfiable subset of the tracked assertions may come back (the choice is forked)"""
         from pysym import engine as E
 
+        if s.last != ("unsat", len(s.cons)):
+            return []          # z3.Solver.unsat_core() without an unsat check of this very solver: empty
         tracked = [(f, a) for f, a, t in s.cons if t is not None]
         untracked = [f for f, a, t in s.cons if t is None]
         n = len(tracked)
